@@ -29,6 +29,7 @@ def run(tier: str) -> int:
             {"Family": "stackdeep", "MaxLen": 3, "Starts": "zero", "Sample": 2500, "workers": 4},
             {"Family": "trivfx", "MaxLen": 4, "Starts": "zero", "Sample": 300, "workers": 3},  # implicit rules that push / pop
             {"Family": "stacke", "MaxLen": 3, "Starts": "zero", "Sample": 0, "workers": 3, "style": "both"},  # empty strings on the stack
+            {"Family": "ci", "MaxLen": 3, "Starts": "zero", "Sample": 350, "workers": 3, "style": "min"},  # PUSH of an insensitive literal pushes what was matched
         ]
     else:
         fams = [
@@ -37,6 +38,7 @@ def run(tier: str) -> int:
             {"Family": "stackdeep", "MaxLen": 4, "Starts": "zero", "Sample": 0, "workers": 12},
             {"Family": "trivfx", "MaxLen": 4, "Starts": "zero", "Sample": 0, "workers": 8},
             {"Family": "stacke", "MaxLen": 4, "Starts": "zero", "Sample": 0, "workers": 8, "style": "both"},
+            {"Family": "ci", "MaxLen": 3, "Starts": "zero", "Sample": 0, "workers": 8, "style": "min"},
         ]
     for f in fams:
         replay.run_family(rep, f, "sem", modes)
